@@ -138,6 +138,7 @@ class Interp:
         self._class_cache = {}
         self.contracts = {}  # qualname -> Contract
         self.use_contracts = set()
+        self.stubs = {}
         self.loop_invariants = {}  # (qualname, ordinal) -> LoopInv
         self.fresh_counter = itertools.count()
         self.sym_inputs = []
@@ -1204,8 +1205,10 @@ class Interp:
 
     def call_func(self, f, args, kwargs, st, node=None):
         q = f.qualname()
-        if q in self.use_contracts and q in self.contracts:
-            yield from self.contracts[q].apply(self, st, f, args, kwargs)
+        if q in self.stubs and not any(fr.func is not None and fr.func.node is self.stubs[q].node for fr in st.frames):
+            # modular step: the callee is used through its contract (a harness function), not its body
+            self.trust("stub:" + q, "callee %s used through its contract `%s` (proved separately)" % (q, self.stubs[q].name))
+            yield from self.call_func(self.stubs[q], args, kwargs, st, node)
             return
         decs = f.decorators()
         if isinstance(f.node, ast.Lambda):
